@@ -56,11 +56,24 @@ Theorem C15_spec_ok_on_model : forall (O : FloatOps),
   forall c, gwf O c = true -> gspec_ok O c (grun_case O c) = true.
 Proof. exact spec_ok_on_model. Qed.
 
-Theorem C15_spec_ok_sound_dist : forall (O : FloatOps) fixed san global name ovs ty d,
-  gspec_ok O (CDist O fixed san global name ovs) (ODist O ty d) = true ->
+Theorem C15_spec_ok_sound_dist : forall (O : FloatOps) fixed san global name ovs usfx unit ty d fam,
+  gspec_ok O (CDist O fixed san global name ovs usfx unit) (ODist O ty d fam) = true ->
   optb_same O d (spec_choice O san global name ovs) = true
+  /\ (ty = true <-> spec_choice O san global name ovs <> None)
   /\ (ty = true <-> d <> None).
 Proof. exact spec_ok_sound_dist. Qed.
+
+(* Exposure: in the model of Inner::render, for EVERY unit-suffix configuration (suffix enabled or not,
+   described with any unit or not) the series rendered are those of the buckets that apply to the METRIC
+   name, the TYPE line says histogram exactly when such buckets exist, hence exactly when bucket series
+   are rendered; the family name (metric name + unit suffix) only labels the TYPE line. *)
+Theorem C15_exposed_as_histogram_iff_buckets_apply : forall (O : FloatOps) san global name ovs usfx unit,
+  let '(fam, ty, dist) := render_family O (db_new O true san global ovs) usfx unit (eff_key san name) in
+  dist = spec_choice O san global name ovs
+  /\ (ty = true <-> spec_choice O san global name ovs <> None)
+  /\ (ty = true <-> dist <> None)
+  /\ fam = family_name usfx unit (eff_key san name).
+Proof. exact exposed_iff_buckets_apply. Qed.
 
 Theorem C15_spec_ok_sound_hist : forall (O : FloatOps) bounds done cs cnt sm,
   snap_ok O bounds done (cs, cnt, sm) = true ->
@@ -117,7 +130,7 @@ Theorem C15_matcher_suffix_refuted_before_fix : exists pre p, pre <> [] /\
 Proof. exact suffix_unsound_before_fix. Qed.
 
 Theorem C15_suffix_override_refuted_before_fix :
-  exists c : gcase ZO, (match c with CDist _ fixed _ _ _ _ => fixed = false | _ => False end)
+  exists c : gcase ZO, (match c with CDist _ fixed _ _ _ _ _ _ => fixed = false | _ => False end)
                        /\ gspec_ok ZO c (grun_case ZO c) = false.
 Proof. exact suffix_refuted_before_fix. Qed.
 
